@@ -35,9 +35,11 @@ CHECKS = {
 PROPS = [json.loads(l) for l in open(os.path.join(ROOT, "properties.jsonl"))]
 
 TS = "; plus thread-level stateless model checking (tsched): exhaustive DFS over the interleavings, between real OS threads, of every operation on the process-wide atomics and the wait-for graph lock (hook H4)"
+TS2 = "; plus thread-level stateless model checking (tsched): preemption-bounded exhaustive DFS over the interleavings of a sending thread and an actor-ending thread, with every tracing event / span boundary inside rsactor as a scheduling point"
 BT = "; plus exhaustive enumeration of operation-level orders of real OS threads (bthreads) for the blocking_* forms"
 TECH = {
-    "C01": MSCHED_TECH + BT,
+    "C01": MSCHED_TECH + BT + TS2,
+    "C03": MSCHED_TECH + TS2,
     "C02": MSCHED_TECH + BT,
     "C05": MSCHED_TECH + "; plus exhaustive enumeration of all 18 ActorResult shapes",
     "C09": MSCHED_TECH + BT + "; plus exhaustive enumeration of call sequences (one fresh process each) against a reference model",
@@ -87,7 +89,7 @@ manifest = {
          "kind_free_text": "controlled deterministic task scheduler + virtual clock on a real tokio current-thread runtime running the real rsactor code; stateless DFS with replay, preemption-bounded; also hosts the differential (C16), per-feature-build (C18), procenum (C09) and bthreads (C17) drivers as subcommands of the same binary"},
         {"name": "bthreads", "path": "/verif/harness/src/bthreads.rs", "serves_properties": ["C17"], "kind_free_text": "real OS threads driven through every operation-level order by a coordinator"},
         {"name": "macrocorpus", "path": "/verif/tools/gen_corpus.py", "serves_properties": ["C19"], "kind_free_text": "bounded-exhaustive generation of macro input programs + independent decision table; compiled against the real macros"},
-        {"name": "tsched", "path": "/verif/harness/src/tsched.rs", "serves_properties": ["C11", "C13", "C14", "C15"], "kind_free_text": "controlled scheduler for real OS threads: every operation on rsactor's process-wide atomics / graph lock (hook H4) is a scheduling point; stateless DFS over all interleavings"},
+        {"name": "tsched", "path": "/verif/harness/src/tsched.rs", "serves_properties": ["C01", "C03", "C11", "C13", "C14", "C15"], "kind_free_text": "controlled scheduler for real OS threads: every operation on rsactor's process-wide atomics / graph lock (hook H4) and, in the tracing build, every tracing event and span boundary inside rsactor is a scheduling point; stateless DFS over the interleavings"},
         {"name": "procenum", "path": "/verif/check", "serves_properties": ["C09"], "kind_free_text": "one fresh process per call sequence against the process-wide default capacity, compared with a reference model"},
     ],
     "checks": checks,
